@@ -2133,9 +2133,21 @@ func r099(c *Ctx, r *R) {
 		}
 		n++
 		cleared := false
+		// ... directly, or through one more helper of the package
+		clearsDeep := func(g *ssa.Function) bool {
+			if clears(g) {
+				return true
+			}
+			for _, c2 := range callsIn(g) {
+				if h := c2.Common().StaticCallee(); h != nil && h.Blocks != nil && h.Pkg == g.Pkg && clears(h) {
+					return true
+				}
+			}
+			return false
+		}
 		for _, ci := range callsIn(f) {
 			cal := ci.Common().StaticCallee()
-			if cal == nil || cal.Blocks == nil || !clears(cal) {
+			if cal == nil || cal.Blocks == nil || !clearsDeep(cal) {
 				continue
 			}
 			if ci.Block() == ret.Block() || ci.Block().Dominates(ret.Block()) {
